@@ -18,6 +18,8 @@ import (
 	"sync/atomic"
 	"time"
 
+	"golang.org/x/crypto/chacha20poly1305"
+
 	"github.com/postalsys/muti-metroo/internal/agent"
 	"github.com/postalsys/muti-metroo/internal/config"
 	"github.com/postalsys/muti-metroo/internal/crypto"
@@ -51,6 +53,12 @@ import (
 //	mesh shell <payload>        Agent.OpenShellStream running `echo <hex of payload>` on the exit;
 //	                            echo = the hex text came back on stdout (leak looks for the hex text)
 //	   -> ok echo <0|1> leak <n> seq <up ok> <down ok>
+//	every mesh answer ends with ` zk <n> ua <n>`: zk = relayed data frames that open under the ALL-ZERO key
+//	(a key everybody knows), ua = relayed data frames that do not open under the tunnel's real key (taken
+//	from the ingress agent's stream while the tunnel is up; tcp/fwd/tcpclose only, 0 otherwise)
+//	mesh tcpclose <payload>     the destination hangs up after 20000 bytes while the client keeps writing the
+//	                            payload in 64 KiB writes (close arriving in the middle of multi-frame writes), three
+//	                            connections                                  -> ok leak <n> zk <n> ua <n>
 //	mesh udpzero <payload>      ACTIVE transit: the tap overwrites the ephemeral key field of UDP_OPEN and
 //	                            UDP_OPEN_ACK with zeros before the transit processes (relays) them; then as
 //	                            `mesh udp`                                   -> ok echo <0|1> leak <n>
@@ -98,6 +106,8 @@ type c04Mesh struct {
 	seq      int
 	lastCtr  map[string]uint64 // (peer, stream) -> last counter seen; kept across ops (stream ids are never reused)
 	tcpEcho  net.Listener
+	tcpHang  net.Listener // accepts, reads 20000 bytes, hangs up
+	realKeys [][32]byte   // tunnel keys seen at the ingress during the current op
 	udpEcho  net.PacketConn
 	socks    string
 	fwd      string
@@ -166,6 +176,18 @@ func c04StartMesh() *c04Mesh {
 				return
 			}
 			go func() { defer conn.Close(); io.Copy(conn, conn) }()
+		}
+	}()
+	if m.tcpHang, err = net.Listen("tcp", "127.0.0.1:0"); err != nil {
+		return fail(err)
+	}
+	go func() {
+		for {
+			conn, err := m.tcpHang.Accept()
+			if err != nil {
+				return
+			}
+			go func() { io.CopyN(io.Discard, conn, 20000); conn.Close() }()
 		}
 	}()
 	if m.udpEcho, err = net.ListenPacket("udp", "127.0.0.1:0"); err != nil {
@@ -298,6 +320,38 @@ func (m *c04Mesh) socksRequest(conn net.Conn, cmd byte, ip net.IP, port int) ([]
 	return rep, nil
 }
 
+// grabKeys remembers the session keys of the ingress agent's live streams (the tunnel just opened).
+func (m *c04Mesh) grabKeys() {
+	for _, k := range agent.VerifC04StreamKeys(m.a) {
+		m.realKeys = append(m.realKeys, k)
+	}
+}
+
+func (m *c04Mesh) tcpclose(payload []byte) (bool, error) {
+	for round := 0; round < 3; round++ {
+		conn, err := m.socksHandshake()
+		if err != nil {
+			return false, err
+		}
+		ta := m.tcpHang.Addr().(*net.TCPAddr)
+		if _, err := m.socksRequest(conn, 1, ta.IP, ta.Port); err != nil {
+			conn.Close()
+			return false, err
+		}
+		m.grabKeys()
+		buf := bytes.Repeat(payload, 65536/len(payload)+1)[:65536]
+		conn.SetDeadline(time.Now().Add(10 * time.Second))
+		for sent := 0; sent < 4<<20; sent += len(buf) {
+			if _, err := conn.Write(buf); err != nil {
+				break
+			}
+		}
+		conn.Close()
+		time.Sleep(50 * time.Millisecond)
+	}
+	return true, nil
+}
+
 func (m *c04Mesh) tcp(payload []byte) (bool, error) {
 	conn, err := m.socksHandshake()
 	if err != nil {
@@ -308,6 +362,7 @@ func (m *c04Mesh) tcp(payload []byte) (bool, error) {
 	if _, err := m.socksRequest(conn, 1, ta.IP, ta.Port); err != nil {
 		return false, err
 	}
+	m.grabKeys()
 	if _, err := conn.Write(payload); err != nil {
 		return false, err
 	}
@@ -325,7 +380,14 @@ func (m *c04Mesh) forward(payload []byte) (bool, error) {
 	}
 	defer conn.Close()
 	conn.SetDeadline(time.Now().Add(15 * time.Second))
-	if _, err := conn.Write(payload); err != nil {
+	if _, err := conn.Write(payload[:1]); err != nil {
+		return false, err
+	}
+	for i := 0; i < 100 && len(agent.VerifC04StreamKeys(m.a)) == 0; i++ {
+		time.Sleep(10 * time.Millisecond) // the forward tunnel opens on the first accepted connection
+	}
+	m.grabKeys()
+	if _, err := conn.Write(payload[1:]); err != nil {
 		return false, err
 	}
 	got := make([]byte, len(payload))
@@ -442,6 +504,54 @@ func (m *c04Mesh) udp(payload []byte) (bool, error) {
 // summarise the tap log of one op
 func (m *c04Mesh) summary(kind string, payload []byte, echo bool) string {
 	structural := kind == "file" || kind == "shell" // byte counts depend on metadata/compression: report sequence checks only
+	zk, ua := 0, 0
+	tryOpen := func(key [32]byte, body []byte) bool {
+		if len(body) < crypto.EncryptionOverhead {
+			return false
+		}
+		aead, err := chacha20poly1305.New(key[:])
+		if err != nil {
+			return false
+		}
+		_, err = aead.Open(nil, body[:crypto.NonceSize], body[crypto.NonceSize:], nil)
+		return err == nil
+	}
+	keyChecks := func(body []byte) {
+		if len(body) == 0 {
+			return
+		}
+		var zero [32]byte
+		if tryOpen(zero, body) {
+			zk++
+		}
+		if len(m.realKeys) > 0 {
+			ok := false
+			for _, k := range m.realKeys {
+				if tryOpen(k, body) {
+					ok = true
+					break
+				}
+			}
+			if !ok {
+				ua++
+			}
+		}
+	}
+	if kind == "tcpclose" {
+		m.mu.Lock()
+		n := 0
+		for _, f := range m.log {
+			if len(payload) >= 8 && bytes.Contains(f.payload, payload) {
+				n++
+			}
+			if f.typ == protocol.FrameStreamData {
+				keyChecks(f.payload)
+			}
+		}
+		m.log = nil
+		m.mu.Unlock()
+		return fmt.Sprintf("ok leak %d zk %d ua %d", n, zk, ua)
+	}
 	if kind == "udpzero" {
 		m.mu.Lock()
 		n := 0
@@ -497,6 +607,7 @@ func (m *c04Mesh) summary(kind string, payload []byte, echo bool) string {
 		if len(body) == 0 {
 			continue // bare FIN / empty frame: carries no application byte
 		}
+		keyChecks(body)
 		if len(body) < crypto.EncryptionOverhead {
 			d.seqOK = false
 			d.plain += len(body)
@@ -527,9 +638,9 @@ func (m *c04Mesh) summary(kind string, payload []byte, echo bool) string {
 		return 0
 	}
 	if structural {
-		return fmt.Sprintf("ok echo %d leak %d seq %d %d", b(echo), leak, b(st[aID].seqOK), b(st[cID].seqOK))
+		return fmt.Sprintf("ok echo %d leak %d seq %d %d zk %d ua %d", b(echo), leak, b(st[aID].seqOK), b(st[cID].seqOK), zk, ua)
 	}
-	return fmt.Sprintf("ok echo %d leak %d up %d %d down %d %d", b(echo), leak, st[aID].plain, b(st[aID].seqOK), st[cID].plain, b(st[cID].seqOK))
+	return fmt.Sprintf("ok echo %d leak %d up %d %d down %d %d zk %d ua %d", b(echo), leak, st[aID].plain, b(st[aID].seqOK), st[cID].plain, b(st[cID].seqOK), zk, ua)
 }
 
 func c04Mesh3(kind string, payload []byte) string {
@@ -542,6 +653,7 @@ func c04Mesh3(kind string, payload []byte) string {
 	m.mu.Lock()
 	m.log = nil
 	m.mu.Unlock()
+	m.realKeys = nil
 	var echo bool
 	var err error
 	marker := payload
@@ -554,6 +666,8 @@ func c04Mesh3(kind string, payload []byte) string {
 		m.zeroKeys.Store(true)
 		echo, err = m.udp(payload)
 		m.zeroKeys.Store(false)
+	case "tcpclose":
+		echo, err = m.tcpclose(payload)
 	case "fwd":
 		echo, err = m.forward(payload)
 	case "file":
@@ -576,6 +690,8 @@ func c04Mesh3(kind string, payload []byte) string {
 
 func init() {
 	c03Tunnel = c04Mesh3
+	c03Handshake = c04hRun
+	c03HandshakeGen = func(w *bufio.Writer, r *rng, n int) { c04hGen(w, r, n, false) }
 	register("c04", &Engine{
 		Run: func(line string) string {
 			f := fields(line)
@@ -631,7 +747,11 @@ func init() {
 					return "err"
 				}
 				return "key"
-			case f[0] == "mesh" && len(f) == 3 && (f[1] == "tcp" || f[1] == "udp" || f[1] == "udpzero" || f[1] == "fwd" || f[1] == "file" || f[1] == "shell"):
+			case f[0] == "reset":
+				return "ok"
+			case f[0] == "hs":
+				return c04hRun(f)
+			case f[0] == "mesh" && len(f) == 3 && (f[1] == "tcp" || f[1] == "udp" || f[1] == "udpzero" || f[1] == "tcpclose" || f[1] == "fwd" || f[1] == "file" || f[1] == "shell"):
 				return c04Mesh3(f[1], unhexTok(f[2]))
 			}
 			return "bad-op"
@@ -673,6 +793,18 @@ func init() {
 				}
 			}
 			fmt.Fprintf(w, "mesh udpzero %s\n", h(r.bytes(r.pick(32, 100, 1000))))
+			closes := 2
+			if tier == "thorough" {
+				closes = 12
+			}
+			for i := 0; i < closes; i++ {
+				fmt.Fprintf(w, "mesh tcpclose %s\n", h(r.bytes(r.pick(32, 64, 4096))))
+			}
+			hsN := 1
+			if tier == "thorough" {
+				hsN = 12
+			}
+			c04hGen(w, r, hsN, true)
 			_ = sort.Ints
 		},
 		// Facts: what each side does WITHOUT a peer key, probed on the compiled code.
